@@ -109,7 +109,8 @@ def run(tier, seed, model_ok, translator, search=False):
             nm = rng.choice(NAMES[: rng.choice([2, 4, len(NAMES)])])
             bad = rng.random() < 0.04
             if r == "table":
-                obj = rng.choice(pool[nm])
+                pk = rng.randrange(len(pool[nm]))
+                obj = pool[nm][pk]
             elif r == "json":
                 obj = {"name": nm, "columns": {}} if not bad else rng.choice([{"nam": nm}, {"name": 5}])
             else:
@@ -121,31 +122,14 @@ def run(tier, seed, model_ok, translator, search=False):
                 [BlockType.METADATA, BlockType.DIRECTIVE, BlockType.BLANK, BlockType.TEMPLATE_ROW])
             blocks.append((bt, obj))
             abstract.append({"t": is_table, "src": name_src(r, obj, grid_regex), "val": i, "rep": r,
-                             "shape": rep_of(obj), "has_df": hasattr(obj, "df")})
+                             "shape": rep_of(obj), "has_df": hasattr(obj, "df"), "bt": bt.name,
+                             "obj": {"pool": [nm, pk]} if r == "table" else {"lit": obj}})
         as_df = rep == "df" or (rep == "mixed" and rng.random() < 0.3)
         case = {"seed": seed, "index": idx, "as_dataframe": as_df,
                 "blocks": [{k: v for k, v in a.items()} for a in abstract]}
         out.count("rep:" + rep)
 
-        # the object the bundle should hold for block i: its frame when frames are requested and it has one
-        def stored(i):
-            obj = blocks[i][1]
-            return obj.df if (as_df and hasattr(obj, "df")) else obj
-
-        # queries
-        qs = [{"q": "len"}, {"q": "iter"}]
-        for nm in NAMES[:5] + ["_x"] + NAMES[-2:] + ["absent"]:
-            for q in ("all", "contains", "unique", "getattr", "getitem_str"):
-                qs.append({"q": q, "n": nm})
-        ntab = sum(1 for a in abstract if a["t"])
-        for i in range(-ntab - 1, ntab + 1):
-            qs.append({"q": "getitem_int", "i": i})
-        for ix in ({"b": True}, {"b": False}, "other:float", "other:none", "other:slice", {"s": NAMES[0]}, {"s": "absent"}):
-            qs.append({"q": "getitem", "idx": ix})
-
-        impl = impl_run(TableBundle, TableNameNotUniqueInBundleError, blocks, as_df, qs, n)
-        out.case(case, nontrivial=ntab > 0)
-        oracle(abstract, impl, qs, out, case)
+        qs, impl = evaluate(blocks, abstract, as_df, n, case, out)
         if model_ok:
             mqs = [{"q": "getitem", "idx": {"s": q["n"]}} if q["q"] == "getitem_str" else
                    (dict(q, idx="other") if q["q"] == "getitem" and isinstance(q["idx"], str) else q) for q in qs]
@@ -163,14 +147,39 @@ def run(tier, seed, model_ok, translator, search=False):
     return out
 
 
-def impl_run(TableBundle, NotUnique, blocks, as_df, qs, n):
+def queries_for(abstract):
+    qs = [{"q": "len"}, {"q": "iter"}]
+    for nm in NAMES[:5] + ["_x"] + NAMES[-2:] + ["absent"]:
+        for q in ("all", "contains", "unique", "getattr", "getitem_str"):
+            qs.append({"q": q, "n": nm})
+    ntab = sum(1 for a in abstract if a["t"])
+    for i in range(-ntab - 1, ntab + 1):
+        qs.append({"q": "getitem_int", "i": i})
+    for ix in ({"b": True}, {"b": False}, "other:float", "other:none", "other:slice", {"s": NAMES[0]}, {"s": "absent"}):
+        qs.append({"q": "getitem", "idx": ix})
+    return qs
+
+
+def evaluate(blocks, abstract, as_df, n, case, out, form=None):
+    """build the real bundle from the blocks, ask every query, judge the answers against the statement"""
+    from pdtable import TableBundle
+    from pdtable.store import TableNameNotUniqueInBundleError
+    qs = queries_for(abstract)
+    impl = impl_run(TableBundle, TableNameNotUniqueInBundleError, blocks, as_df, qs, n, form)
+    out.case(case, nontrivial=any(a["t"] for a in abstract))
+    oracle(abstract, impl, qs, out, case)
+    return qs, impl
+
+
+def impl_run(TableBundle, NotUnique, blocks, as_df, qs, n, form=None):
     """Build the real bundle and answer the queries.  Objects are reported as identity tokens: block index i for the
     block value itself, i + DF for its `.df` (a value occurring in several blocks gets the indices in order)."""
     try:
         # the blocks come as a one-shot iterator, a generator, a list or a tuple; when frames are requested also as a
         # generator that builds a fresh, short-lived Table facade per block over the pooled frame (the frame stored
         # must be that block's own frame)
-        form = (n + len(qs)) % 5 if as_df else (n + len(qs)) % 4
+        if form is None:
+            form = (n + len(qs)) % 5 if as_df else (n + len(qs)) % 4
         closed = []
 
         def gen():
@@ -381,13 +390,23 @@ def oracle(abstract, impl, qs, out, case):
 
 
 def replay(rep):
-    """cases are regenerated from (seed, index): re-run the stream of that seed and look at the same index"""
-    seed = int(rep.get("seed", 0))
+    """the case carries what is needed to rebuild its blocks (pooled table by name and position, literal dict / grid
+    values); every form of block source is tried"""
+    from pdtable import BlockType
     inp = rep.get("input") or {}
-    if "index" not in inp:
+    if "blocks" not in inp or any("obj" not in a for a in inp["blocks"]):
         return False, "replay file has no input (no-failing-input-found): " + str(rep.get("broken"))[:300]
-    o = run("thorough", seed, model_ok=False, translator=common.translate())
-    hit = [f for f in o.failures if f["input"].get("index") == inp["index"]]
-    if hit:
-        return False, hit[0]["what"]
+    pool = _pool()
+    abstract = inp["blocks"]
+    blocks = []
+    for a in abstract:
+        o = a["obj"]
+        obj = pool[o["pool"][0]][o["pool"][1]] if "pool" in o else o["lit"]
+        blocks.append((BlockType[a.get("bt", "TABLE" if a["t"] else "METADATA")], obj))
+    as_df = bool(inp.get("as_dataframe"))
+    for form in range(5 if as_df else 4):
+        o = Outcome()
+        evaluate(blocks, abstract, as_df, len(blocks), dict(inp), o, form)
+        if o.failures:
+            return False, o.failures[0]["what"]
     return True, "property holds on this input"
